@@ -1,7 +1,18 @@
-// gen_c04: regenerates lean/SSV/Gen/C04.lean from /repo (constants the C04 theorems depend on).
+// gen_c04: regenerates lean/SSV/Gen/C04.lean from /repo: the constants the C04 theorems depend on
+// and the order of the property-relevant events in the two UDP UnpackInPlace functions
+// (IsOk guard -> AEAD open -> header parse/validate -> lazy filter creation -> MustAdd -> state writes).
+// A statement that mentions one of the tracked calls or writes receiver state in a shape the
+// extractor does not recognise aborts the generation (GEN-BROKEN): the tie is broken, nothing is skipped.
 package main
 
-import "ssvharness/internal/gen"
+import (
+	"fmt"
+	"go/ast"
+	"go/token"
+	"strings"
+
+	"ssvharness/internal/gen"
+)
 
 func main() {
 	gen.Main("C04", func(c *gen.Ctx, l *gen.Lean) error {
@@ -9,6 +20,267 @@ func main() {
 		if err != nil {
 			return err
 		}
-		return l.Consts(p, "swfBlockBits", "DefaultSlidingWindowFilterSize", "MaxEpochDiff", "ReplayWindowDuration")
+		if err := l.Consts(p, "swfBlockBits", "DefaultSlidingWindowFilterSize", "MaxEpochDiff", "ReplayWindowDuration",
+			"HeaderTypeClientPacket", "HeaderTypeServerPacket", "UDPSeparateHeaderLength",
+			"UDPClientMessageHeaderFixedLength", "UDPServerMessageHeaderFixedLength"); err != nil {
+			return err
+		}
+		srv, err := p.Func("*ShadowPacketServerUnpacker", "UnpackInPlace")
+		if err != nil {
+			return err
+		}
+		cli, err := p.Func("*ShadowPacketClientUnpacker", "UnpackInPlace")
+		if err != nil {
+			return err
+		}
+		so, _, err := unpackOrder(p, srv)
+		if err != nil {
+			return fmt.Errorf("ShadowPacketServerUnpacker.UnpackInPlace: %w", err)
+		}
+		co, minute, err := unpackOrder(p, cli)
+		if err != nil {
+			return fmt.Errorf("ShadowPacketClientUnpacker.UnpackInPlace: %w", err)
+		}
+		if minute == "" {
+			return fmt.Errorf("ShadowPacketClientUnpacker.UnpackInPlace: no `time.Since(p.oldServerSessionLastSeenTime) < <const>` case found")
+		}
+		l.NatDef("clientSessionChangeMinInterval", minute, "ss2022/packet.go: time.Since(p.oldServerSessionLastSeenTime) < time.Minute (nanoseconds)")
+		l.Raw("/-- order of the property-relevant statements of ShadowPacketServerUnpacker.UnpackInPlace -/\n")
+		l.Raw("def serverUnpackOrder : List String := " + gen.LeanStrList(so) + "\n")
+		l.Raw("/-- order of the property-relevant statements of ShadowPacketClientUnpacker.UnpackInPlace -/\n")
+		l.Raw("def clientUnpackOrder : List String := " + gen.LeanStrList(co) + "\n")
+		return nil
 	})
+}
+
+var trackedCalls = map[string]bool{"IsOk": true, "MustAdd": true, "Add": true, "Reset": true, "Open": true,
+	"NewSlidingWindowFilter": true, "ParseUDPClientMessageHeader": true, "ParseUDPServerMessageHeader": true}
+
+// tracked returns the tracked calls inside n, in source order.
+func tracked(n ast.Node) []string {
+	var res []string
+	ast.Inspect(n, func(x ast.Node) bool {
+		if c, ok := x.(*ast.CallExpr); ok {
+			switch f := c.Fun.(type) {
+			case *ast.SelectorExpr:
+				if trackedCalls[f.Sel.Name] {
+					res = append(res, f.Sel.Name)
+				}
+			case *ast.Ident:
+				if trackedCalls[f.Name] {
+					res = append(res, f.Name)
+				}
+			}
+		}
+		return true
+	})
+	return res
+}
+
+// writes returns the receiver fields assigned inside n (recv.X = ..., recv.X op= ..., recv.X++), in source order.
+func writes(n ast.Node, recv string) []string {
+	var res []string
+	lhs := func(e ast.Expr) {
+		for {
+			switch x := e.(type) {
+			case *ast.SelectorExpr:
+				if id, ok := x.X.(*ast.Ident); ok && id.Name == recv {
+					res = append(res, x.Sel.Name)
+					return
+				}
+				e = x.X
+			case *ast.IndexExpr:
+				e = x.X
+			case *ast.StarExpr:
+				e = x.X
+			case *ast.ParenExpr:
+				e = x.X
+			default:
+				return
+			}
+		}
+	}
+	ast.Inspect(n, func(x ast.Node) bool {
+		switch s := x.(type) {
+		case *ast.AssignStmt:
+			for _, e := range s.Lhs {
+				lhs(e)
+			}
+		case *ast.IncDecStmt:
+			lhs(s.X)
+		}
+		return true
+	})
+	return res
+}
+
+func hasReturn(n ast.Node) bool {
+	found := false
+	ast.Inspect(n, func(x ast.Node) bool {
+		if _, ok := x.(*ast.ReturnStmt); ok {
+			found = true
+		}
+		if _, ok := x.(*ast.FuncLit); ok {
+			return false
+		}
+		return true
+	})
+	return found
+}
+
+func endsWithReturn(b *ast.BlockStmt) bool {
+	if len(b.List) == 0 {
+		return false
+	}
+	_, ok := b.List[len(b.List)-1].(*ast.ReturnStmt)
+	return ok
+}
+
+func eq(a, b []string) bool { return strings.Join(a, ",") == strings.Join(b, ",") }
+
+// unpackOrder classifies every top-level statement of an UnpackInPlace body.
+func unpackOrder(p *gen.Pkg, fd *ast.FuncDecl) (events []string, minute string, err error) {
+	if fd.Recv == nil || len(fd.Recv.List) != 1 || len(fd.Recv.List[0].Names) != 1 {
+		return nil, "", fmt.Errorf("unexpected receiver")
+	}
+	recv := fd.Recv.List[0].Names[0].Name
+	for _, st := range fd.Body.List {
+		tr := tracked(st)
+		wr := writes(st, recv)
+		src := p.Src(st)
+		bad := func(why string) error {
+			return fmt.Errorf("unrecognised statement shape (%s): %s", why, src)
+		}
+		switch s := st.(type) {
+		case *ast.IfStmt:
+			cond := p.Src(s.Cond)
+			switch {
+			case s.Init != nil || s.Else != nil:
+				if len(tr) > 0 || len(wr) > 0 || hasReturn(s) {
+					return nil, "", bad("if with init/else")
+				}
+			case eq(tr, []string{"IsOk"}):
+				// <f> != nil && !<f>.IsOk(<id>)  { err = &ShadowPacketReplayError{...}; return }
+				parts := strings.Split(cond, " && ")
+				if len(parts) != 2 || !strings.HasSuffix(parts[0], " != nil") || !strings.HasPrefix(parts[1], "!"+strings.TrimSuffix(parts[0], " != nil")+".IsOk(") {
+					return nil, "", bad("IsOk guard condition")
+				}
+				if len(wr) > 0 || len(s.Body.List) != 2 || !endsWithReturn(s.Body) || !strings.Contains(p.Src(s.Body.List[0]), "ShadowPacketReplayError") {
+					return nil, "", bad("IsOk guard body")
+				}
+				events = append(events, "isok-guard")
+			case eq(tr, []string{"NewSlidingWindowFilter"}):
+				// if <first-valid-packet condition> { <filter> = NewSlidingWindowFilter(p.filterSize) }
+				if len(s.Body.List) != 1 || hasReturn(s) {
+					return nil, "", bad("filter creation body")
+				}
+				as, ok := s.Body.List[0].(*ast.AssignStmt)
+				if !ok || len(as.Lhs) != 1 || as.Tok != token.ASSIGN || p.Src(as.Rhs[0]) != "NewSlidingWindowFilter("+recv+".filterSize)" {
+					return nil, "", bad("filter creation assignment")
+				}
+				events = append(events, "create["+cond+"]")
+			case len(tr) > 0:
+				return nil, "", bad("tracked call in if")
+			case cond == "err != nil":
+				if len(wr) > 0 || len(s.Body.List) != 1 || !endsWithReturn(s.Body) {
+					return nil, "", bad("err guard body")
+				}
+				events = append(events, "ret-if-err")
+			case hasReturn(s):
+				if len(wr) > 0 || !endsWithReturn(s.Body) {
+					return nil, "", bad("guard")
+				}
+				events = append(events, "guard")
+			case len(wr) > 0:
+				return nil, "", bad("state write in if")
+			}
+		case *ast.AssignStmt:
+			switch {
+			case eq(tr, []string{"Open"}):
+				if len(wr) > 0 || len(s.Lhs) != 2 || p.Src(s.Lhs[1]) != "err" {
+					return nil, "", bad("AEAD open")
+				}
+				events = append(events, "open")
+			case eq(tr, []string{"ParseUDPClientMessageHeader"}) || eq(tr, []string{"ParseUDPServerMessageHeader"}):
+				if len(wr) > 0 || len(s.Lhs) != 4 || p.Src(s.Lhs[3]) != "err" {
+					return nil, "", bad("header parse")
+				}
+				events = append(events, "parse")
+			case len(tr) > 0:
+				return nil, "", bad("tracked call in assignment")
+			case len(wr) > 0:
+				for _, w := range wr {
+					events = append(events, "write:"+w)
+				}
+			}
+		case *ast.ExprStmt:
+			switch {
+			case eq(tr, []string{"MustAdd"}):
+				c, ok := s.X.(*ast.CallExpr)
+				if !ok || len(c.Args) != 1 {
+					return nil, "", bad("MustAdd")
+				}
+				events = append(events, "mustadd")
+			case len(tr) > 0:
+				return nil, "", bad("tracked call in expression statement")
+			}
+		case *ast.SwitchStmt:
+			if len(tr) > 0 || s.Init != nil {
+				return nil, "", bad("tracked call in switch")
+			}
+			var cases []string
+			for _, cc := range s.Body.List {
+				cl := cc.(*ast.CaseClause)
+				var label []string
+				for _, e := range cl.List {
+					label = append(label, p.Src(e))
+					if be, ok := e.(*ast.BinaryExpr); ok && be.Op == token.LSS && strings.HasPrefix(p.Src(be.X), "time.Since(") {
+						if p.Src(be.X) != "time.Since("+recv+".oldServerSessionLastSeenTime)" {
+							return nil, "", bad("time.Since operand")
+						}
+						v, ok := p.EvalInt(be.Y)
+						if !ok || minute != "" {
+							return nil, "", bad("session change interval")
+						}
+						minute = v
+					}
+				}
+				if cl.List == nil {
+					label = []string{"default"}
+				}
+				var w []string
+				for _, b := range cl.Body {
+					w = append(w, writes(b, recv)...)
+				}
+				ret := false
+				for _, b := range cl.Body {
+					if hasReturn(b) {
+						ret = true
+					}
+				}
+				item := strings.Join(label, "|")
+				if len(w) > 0 {
+					item += ":write:" + strings.Join(w, "+")
+				}
+				if ret {
+					item += ":may-return"
+				}
+				cases = append(cases, item)
+			}
+			events = append(events, "switch["+strings.Join(cases, "; ")+"]")
+		case *ast.ReturnStmt:
+			events = append(events, "return")
+		case *ast.DeclStmt:
+			if len(tr) > 0 {
+				return nil, "", bad("tracked call in declaration")
+			}
+		case *ast.IncDecStmt:
+			for _, w := range wr {
+				events = append(events, "write:"+w)
+			}
+		default:
+			return nil, "", bad("statement kind")
+		}
+	}
+	return events, minute, nil
 }
